@@ -417,4 +417,115 @@ example : chordSymbolPitches ⟨2, 0, 16, [], none⟩ = .ok [0, 3, 6, 9] ∧
     chordSymbolQuality ⟨2, 0, 20, [⟨.no, 0, 1⟩], some (4, -1)⟩ = .ok QUALITY_OTHER ∧
     chordSymbolBass ⟨2, 0, 20, [⟨.no, 0, 1⟩], some (4, -1)⟩ = .ok 3 := by decide +kernel
 
+/-! ## root and bass are the pitch classes SPELLED in the symbol, with any number of accidentals -/
+
+/-- `_STEPS_MIDI` (regenerated from the source) is the usual naming of the white keys,
+letters `A..G` as `0..6` -/
+theorem steps_midi_spelling :
+    ∀ st ∈ List.range 7, dget STEPS_MIDI st = ([9, 11, 0, 2, 4, 5, 7] : List Int)[st]? := by decide
+
+/-- a letter with `a` accidentals (`a > 0` sharps, `a < 0` flats, ANY number of them) is the pitch
+class `(white key + a) mod 12` -/
+theorem pitchClassToMidi_spelled (st : Nat) (a : Int) (m : Nat) (hst : st < 7)
+    (h : pitchClassToMidi (st, a) = .ok m) :
+    ∃ base, ([9, 11, 0, 2, 4, 5, 7] : List Int)[st]? = some base ∧ (m : Int) = (base + a) % 12 := by
+  have htab := steps_midi_spelling st (List.mem_range.mpr hst)
+  unfold pitchClassToMidi lookupK at h
+  cases hd : dget STEPS_MIDI st with
+  | none => simp [hd] at h
+  | some v =>
+    simp only [hd, bind_ok, Except.ok.injEq] at h
+    refine ⟨v, by rw [← htab, hd], ?_⟩
+    rw [← h]; unfold pymod12; omega
+
+/-- twelve more (or fewer) accidentals spell the same pitch class -/
+theorem pitchClassToMidi_respell (st : Nat) (a k : Int) :
+    pitchClassToMidi (st, a + 12 * k) = pitchClassToMidi (st, a) := by
+  unfold pitchClassToMidi
+  cases hl : lookupK STEPS_MIDI st with
+  | error e => rfl
+  | ok v =>
+    simp only [bind_ok]
+    congr 1
+    unfold pymod12
+    have : (v + (a + 12 * k)) % 12 = (v + a) % 12 := by omega
+    rw [this]
+
+/-- root and bass of a parseable symbol are the spelled pitch classes: nothing about a symbol's
+readers depends on HOW MANY accidentals the root / bass carry beyond their sum mod 12 -/
+theorem root_bass_spelled (s : Symbol) (r b : Nat) (hroot : s.rootStep < 7)
+    (hbass : ∀ x, s.bass = some x → x.1 < 7)
+    (hr : chordSymbolRoot s = .ok r) (hb : chordSymbolBass s = .ok b) :
+    (∃ base, ([9, 11, 0, 2, 4, 5, 7] : List Int)[s.rootStep]? = some base ∧
+      (r : Int) = (base + s.rootAlter) % 12) ∧
+    (∃ base, ([9, 11, 0, 2, 4, 5, 7] : List Int)[(s.bass.getD (s.rootStep, s.rootAlter)).1]? = some base ∧
+      (b : Int) = (base + (s.bass.getD (s.rootStep, s.rootAlter)).2) % 12) := by
+  unfold chordSymbolRoot at hr
+  unfold chordSymbolBass at hb
+  cases hsm : splitMods s with
+  | error e => simp [hsm] at hr
+  | ok ms =>
+    simp only [hsm, bind_ok] at hr hb
+    refine ⟨pitchClassToMidi_spelled _ _ _ hroot hr, ?_⟩
+    have hlt : (s.bass.getD (s.rootStep, s.rootAlter)).1 < 7 := by
+      cases hsb : s.bass with
+      | none => simpa using hroot
+      | some x => simpa using hbass x hsb
+    exact pitchClassToMidi_spelled _ _ _ hlt hb
+
+/-- re-spelling root and bass enharmonically (12·k more accidentals on the root, 12·j on the bass)
+changes none of the four readers -/
+theorem readers_respell (s : Symbol) (k j : Int) :
+    let s' : Symbol := { s with rootAlter := s.rootAlter + 12 * k,
+                                bass := s.bass.map (fun x => (x.1, x.2 + 12 * j)) }
+    chordSymbolRoot s' = chordSymbolRoot s ∧ chordSymbolBass s' = chordSymbolBass s ∧
+    chordSymbolQuality s' = chordSymbolQuality s ∧ chordSymbolPitches s' = chordSymbolPitches s := by
+  intro s'
+  have hsplit : splitMods s' = splitMods s := rfl
+  have hroot : pitchClassToMidi (s'.rootStep, s'.rootAlter) = pitchClassToMidi (s.rootStep, s.rootAlter) :=
+    pitchClassToMidi_respell _ _ _
+  have hbass : pitchClassToMidi (s'.bass.getD (s'.rootStep, s'.rootAlter))
+      = pitchClassToMidi (s.bass.getD (s.rootStep, s.rootAlter)) := by
+    cases hsb : s.bass with
+    | none =>
+      have : s'.bass = none := by simp [s', hsb]
+      rw [this]; exact hroot
+    | some x =>
+      have : s'.bass = some (x.1, x.2 + 12 * j) := by simp [s', hsb]
+      rw [this]; exact pitchClassToMidi_respell _ _ _
+  refine ⟨?_, ?_, ?_, ?_⟩
+  · unfold chordSymbolRoot; rw [hsplit, hroot]
+  · unfold chordSymbolBass; rw [hsplit, hbass]
+  · unfold chordSymbolQuality parseChordSymbol; rw [hsplit]
+    cases splitMods s with
+    | error e => rfl
+    | ok ms =>
+      simp only [bind_ok]
+      cases hk : KIND_DEGREES[s.kind]? with
+      | none =>
+        rfl
+      | some kd =>
+        simp only [pure, Except.pure, bind_ok]
+        cases applyMods (dictOf kd) ms <;> rfl
+  · unfold chordSymbolPitches parseChordSymbol; rw [hsplit]
+    cases splitMods s with
+    | error e => rfl
+    | ok ms =>
+      simp only [bind_ok]
+      cases hk : KIND_DEGREES[s.kind]? with
+      | none =>
+        rfl
+      | some kd =>
+        simp only [pure, Except.pure, bind_ok]
+        cases applyMods (dictOf kd) ms with
+        | error e => rfl
+        | ok D =>
+          simp only [bind_ok]
+          rw [hroot]
+
+/-- non-vacuity: `C###m7/Dbbbb` = `D#m7/Bb`-ish: root 3, bass 10; `B` with 13 flats is `Bb` -/
+example : chordSymbolRoot ⟨2, 3, 0, [], some (3, -4)⟩ = .ok 3 ∧
+    chordSymbolBass ⟨2, 3, 0, [], some (3, -4)⟩ = .ok 10 ∧
+    pitchClassToMidi (1, -13) = .ok 10 ∧ pitchClassToMidi (1, -1) = .ok 10 := by decide +kernel
+
 end NSV.C15
